@@ -68,7 +68,9 @@ def _chain_transformers(fi: FuncInfo, seed_pred) -> List[Tuple[str, ast.Call, Op
             for c in ast.iter_child_nodes(e):
                 if visit_expr(c, guard):
                     got = True
-            if got and isinstance(e, (ast.Subscript, ast.JoinedStr)):
+            if got and isinstance(e, ast.JoinedStr) and all(isinstance(v, ast.Constant) or (isinstance(v, ast.FormattedValue) and v.conversion == -1 and v.format_spec is None) for v in e.values):
+                out.append(("<concat>", e, guard))  # f'{a}...{text}' with plain fields is concatenation (the loader writes `a + '..' + text` this way)
+            elif got and isinstance(e, (ast.Subscript, ast.JoinedStr)):
                 out.append(("<" + type(e).__name__ + ">", e, guard))
             return got
         return False
@@ -262,7 +264,8 @@ def c02_r5(ctx):
                 probs.append("argument is not one string constant per line of the operation string")
             else:
                 ev = inner.elt.get("value")
-                if "Add" not in repr(ev) or "'\\n'" not in repr(ev) or "%l" not in repr(ev).replace("%" + inner.gens[0][0], "%l"):
+                rv = repr(ev).replace("%" + inner.gens[0][0], "%l")
+                if rv not in ("f%l+Lit('\\n')", "(%l Add Lit('\\n'))") and not ("Add" in rv and "'\\n'" in rv and "%l" in rv):
                     probs.append(f"line constant is {ev!r}, expected line + newline")
     ctx.check(not probs, key(fi, "embedding"), "; ".join(probs), fi.loc(), okmsg="operation string embedded as its lines, each terminated by a newline")
     gq = _const_attr(repo, "client_generators.client:ClientGenerator", "_gql_func_name")
@@ -434,7 +437,7 @@ def c04_r3(ctx):
         "f'{self.enums_module_name}.py'": "f'{self.enums_module_name}.py'",
         "f'{self.input_types_module_name}.py'": "f'{self.input_types_module_name}.py'",
         "f'{self.fragments_module_name}.py'": "f'{self.fragments_module_name}.py'",
-        "file_name": "self._result_types_files.keys()",
+        "file_name": "list(self._result_types_files)",
         "source_path.name": "self.files_to_include",
     }
     tabled = {"'__init__.py'": "snake-casing an operation name never yields a dunder module name; the other names are validated identifiers"}
@@ -912,15 +915,24 @@ def c09_r4(ctx):
     fc = repo.func(IT + "_filter_class_defs")
     o = Interp(fc, lambda e: (True if norm(e) == "types_to_include is None" else None)).run()
     ctx.check(len(o) == 1 and norm(o[0].value) == "self._class_defs", key(fc, "all"), "without a filter not all classes are returned", fc.loc(), okmsg="no filter -> all input classes")
-    o = [x for x in Interp(fc, lambda e: (False if norm(e) == "types_to_include is None" else None)).run() if any("loop body once" in t for t in x.trace)]
+    o = [x for x in Interp(fc, lambda e: (False if norm(e) == "types_to_include is None" else None)).run() if x.kind == "return" and not any("loop skipped" in t for t in x.trace)]
     good = len(o) == 1
     if good:
         x = o[0]
         rv = x.deref(x.value) if isinstance(x.value, ast.Name) else x.value
-        muts = [norm(m) for m in x.muts("types_names")]
-        good = muts == ["types_names.update(self._get_dependencies_of_type(<elem>(types_to_include)))"] and isinstance(rv, ast.ListComp) \
-            and norm(rv.elt) == norm(rv.generators[0].target) and norm(rv.generators[0].iter) == "self._class_defs" \
-            and [norm(i) for i in rv.generators[0].ifs] == [f"{norm(rv.generators[0].target)}.name in types_names"]
+        from ..util import union_terms
+        good = isinstance(rv, ast.ListComp) and len(rv.generators) == 1 and norm(rv.elt) == norm(rv.generators[0].target) and norm(rv.generators[0].iter) == "self._class_defs" \
+            and len(rv.generators[0].ifs) == 1 and isinstance(rv.generators[0].ifs[0], ast.Compare) and isinstance(rv.generators[0].ifs[0].ops[0], ast.In) \
+            and norm(rv.generators[0].ifs[0].left) == f"{norm(rv.generators[0].target)}.name"
+        if good:
+            names = x.deref(rv.generators[0].ifs[0].comparators[0])
+            # the name set: union over the requested types of their dependency closure (loop of unions, or a set comprehension)
+            if isinstance(names, ast.SetComp):
+                g = names.generators
+                good = len(g) == 2 and norm(g[0].iter) == "types_to_include" and not g[0].ifs and not g[1].ifs and norm(g[1].iter) == f"self._get_dependencies_of_type({norm(g[0].target)})" \
+                    and norm(names.elt) == norm(g[1].target)
+            else:
+                good = union_terms(names) == ["self._get_dependencies_of_type(<elem>(types_to_include))"]
     ctx.check(good, key(fc, "closure"), "filtered classes must be exactly those in the union of the dependency closures of all requested types", fc.loc(), okmsg="filter = union of closures, classes unchanged")
     outer = repo.func(IT + "_get_dependencies_of_type")
     scope = [outer] + [f for q, f in outer.module.functions.items() if q.startswith(outer.qualname + ".")]
